@@ -106,10 +106,16 @@ def gen_elem(rng, depth, hot, ids, only=None):
     elif k == "coll" or k == "ent":
         e["ch"] = [gen_elem(rng, depth - 1, hot, ids) for _ in range(rng.randint(0, 3))]
     elif k == "list":
-        # a SubmodelElementList holds elements of one type: Files, or collections
-        sub = rng.choice(["file", "coll"])
+        # a SubmodelElementList declares one element type: File, a nesting type, or one of the abstract types
+        # DataElement / SubmodelElement, whose lists hold any concrete subclass (so possibly Files)
+        sub = rng.choice(["file", "coll", "data", "data", "sme", "sme"])
         e["of"] = sub
-        e["ch"] = [gen_elem(rng, depth - 1, hot, ids, only=[sub]) for _ in range(rng.randint(0, 3))]
+        if sub == "data":
+            e["ch"] = [gen_elem(rng, 0, hot, ids, only=["file", "file", "prop"]) for _ in range(rng.randint(0, 3))]
+        elif sub == "sme":
+            e["ch"] = [gen_elem(rng, depth - 1, hot, ids) for _ in range(rng.randint(0, 3))]
+        else:
+            e["ch"] = [gen_elem(rng, depth - 1, hot, ids, only=[sub]) for _ in range(rng.randint(0, 3))]
         for c in e["ch"]:
             c["sem"] = None   # no semantic_id_list_element is set, children are free; keep it simple and valid
     elif k == "op":
@@ -238,7 +244,8 @@ def mk_elem(model, e, idx, in_list=False):
     if k == "coll":
         return model.SubmodelElementCollection(ids, [mk_elem(model, c, j) for j, c in enumerate(e["ch"])], **kw)
     if k == "list":
-        t = model.File if e["of"] == "file" else model.SubmodelElementCollection
+        t = {"file": model.File, "coll": model.SubmodelElementCollection, "data": model.DataElement,
+             "sme": model.SubmodelElement}[e["of"]]
         return model.SubmodelElementList(ids, t, [mk_elem(model, c, j, True) for j, c in enumerate(e["ch"])], **kw)
     if k == "ent":
         return model.Entity(ids, model.EntityType.CO_MANAGED_ENTITY,
@@ -845,7 +852,7 @@ def nesting(case):
         for e in l:
             if e["k"] == "file":
                 res.add(where)
-            go(e.get("ch", []), e["k"])
+            go(e.get("ch", []), e["k"] + ("<" + e["of"] + ">" if e["k"] == "list" else ""))
             go(e.get("in", []), "op-in")
             go(e.get("out", []), "op-out")
             go(e.get("io", []), "op-inout")
